@@ -150,47 +150,32 @@ func ruleMergeConfigs(c *Ctx, r *Repo, cp *packages.Package) {
 		return
 	}
 	c.Func(funcKey(cp, fd))
-	var loop *ast.ForStmt
-	for _, s := range fd.Body.List {
-		if fs, ok := s.(*ast.ForStmt); ok {
-			loop = fs
-		}
-	}
+	// the loop must cover all fields: an index running over 0..NumField() of the less specific value
+	loop, iv, lbody := findIndexLoop(info, fd, func(bound string) bool {
+		return strings.HasSuffix(bound, ".NumField<(reflect.Value).NumField>()") || strings.HasSuffix(bound, ".NumField<(reflect.Type).NumField>()")
+	})
 	if loop == nil {
-		c.Fail("R08.1", "mergeConfigs|field-loop", r.Pos(fd.Pos()), "no loop over the struct's fields")
-		return
-	}
-	// the loop must cover all fields: i from 0 to NumField()
-	if _, bound, ok := countingLoop(info, loop); !ok || !strings.HasSuffix(types.ExprString(bound), ".NumField()") {
-		c.Fail("R08.1", "mergeConfigs|field-loop-bound", r.Pos(loop.Pos()), "the field loop does not run over 0..NumField()")
+		c.Fail("R08.1", "mergeConfigs|field-loop", r.Pos(fd.Pos()), "no loop over 0..NumField() of the struct's fields")
 		return
 	}
 	d := newDT(info)
-	start := seedEnv(d, fd)
-	// name the per-field values
-	for _, s := range loop.Body.List {
-		if as, ok := s.(*ast.AssignStmt); ok && as.Tok == token.DEFINE && len(as.Lhs) == 1 && len(as.Rhs) == 1 {
-			id := as.Lhs[0].(*ast.Ident)
-			rhs := types.ExprString(as.Rhs[0])
-			switch {
-			case strings.HasSuffix(rhs, ".Field(i)") && strings.Contains(rhs, "Elem()"):
-				start.env[info.Defs[id]] = "DEST"
-			case strings.HasSuffix(rhs, ".Field(i)"):
-				start.env[info.Defs[id]] = "SRC"
-			}
-		}
-	}
-	var body []ast.Stmt
-	for _, s := range loop.Body.List {
-		if as, ok := s.(*ast.AssignStmt); ok && as.Tok == token.DEFINE && len(as.Lhs) == 1 {
-			if v, ok := start.env[info.Defs[as.Lhs[0].(*ast.Ident)]]; ok && (v == "SRC" || v == "DEST") {
-				continue
-			}
-		}
-		body = append(body, s)
-	}
+	start := d.envBefore(seedEnv(d, fd), fd.Body.List, loop)
+	start.env[iv] = "I"
 	d.paths = nil
-	d.stmts(start, body, func(p *dtPath) { d.finish(p, "end") })
+	d.stmts(start, lbody.List, func(p *dtPath) { d.finish(p, "end") })
+	// name the per-field values: SRC = field I of the less specific config (passed by value),
+	// DEST = field I of the struct the more specific pointer refers to
+	const fieldI = ".Field<(reflect.Value).Field>(I)"
+	srcX := "reflect.ValueOf(ARG1)" + fieldI
+	destX := "reflect.ValueOf(ARG2).Elem<(reflect.Value).Elem>()" + fieldI
+	destX2 := "reflect.Indirect(reflect.ValueOf(ARG2))" + fieldI
+	for _, p := range d.paths {
+		p.rewrite(func(s string) string {
+			s = strings.ReplaceAll(s, destX, "DEST")
+			s = strings.ReplaceAll(s, destX2, "DEST")
+			return strings.ReplaceAll(s, srcX, "SRC")
+		})
+	}
 	if d.overflow || len(d.paths) == 0 {
 		c.Fail("R08.1", "mergeConfigs|paths", r.Pos(loop.Pos()), "cannot enumerate the paths of the field loop")
 		return
@@ -317,7 +302,7 @@ func ruleMergeStringMaps(c *Ctx, r *Repo, cp *packages.Package) {
 	}
 	d.paths = nil
 	d.stmts(start, rs.Body.List, func(p *dtPath) { d.finish(p, "end") })
-	known := map[string]bool{"ARG1[K]#ok": true, "ARG1[K]#0.(map[string]any)#ok": true, "V.(map[string]any)#ok": true}
+	known := map[string]bool{"ARG1[K]#ok": true, "ARG1[K].(map[string]any)#ok": true, "V.(map[string]any)#ok": true}
 	okAll := true
 	for _, p := range d.paths {
 		for _, a := range p.Atoms {
@@ -333,11 +318,11 @@ func ruleMergeStringMaps(c *Ctx, r *Repo, cp *packages.Package) {
 		exists, _ := p.atom("ARG1[K]#ok")
 		stores := hasStep(p, "store ARG1[K] = ")
 		storeOK := hasStep(p, "store ARG1[K] = V") == 1
-		dm, hasDM := p.atom("ARG1[K]#0.(map[string]any)#ok")
+		dm, hasDM := p.atom("ARG1[K].(map[string]any)#ok")
 		sm, hasSM := p.atom("V.(map[string]any)#ok")
 		recCalls := p.CallsTo("config.mergeStringMaps")
 		rec := len(recCalls)
-		recOK := rec == 1 && len(recCalls[0].Args) == 2 && recCalls[0].Args[0] == "V.(map[string]any)#0" && recCalls[0].Args[1] == "ARG1[K]#0.(map[string]any)#0"
+		recOK := rec == 1 && len(recCalls[0].Args) == 2 && recCalls[0].Args[0] == "V.(map[string]any)" && recCalls[0].Args[1] == "ARG1[K].(map[string]any)"
 		switch {
 		case !exists:
 			if !(stores == 1 && storeOK && rec == 0) {
@@ -478,18 +463,20 @@ func ruleLayering(c *Ctx, r *Repo, cp *packages.Package) {
 		case name == modPath+"/config.NewDefaultKoanf":
 			seq = append(seq, ev{"defaults", call.Pos()})
 		case strings.HasSuffix(name, "koanf/v2.Koanf).Load") && len(call.Args) >= 1:
-			if pc, ok := call.Args[0].(*ast.CallExpr); ok {
-				pn := calleeName(info, pc)
-				switch {
-				case strings.Contains(pn, "providers/env."):
-					seq = append(seq, ev{"env", call.Pos()})
-				case strings.Contains(pn, "providers/file."):
-					seq = append(seq, ev{"file", call.Pos()})
-				case strings.Contains(pn, "providers/posflag."):
-					seq = append(seq, ev{"flags", call.Pos()})
-				default:
-					seq = append(seq, ev{"other:" + pn, call.Pos()})
-				}
+			// the provider is identified by its type (it may be built inline or bound to a variable first)
+			pn := ""
+			if t := info.TypeOf(call.Args[0]); t != nil {
+				pn = t.String()
+			}
+			switch {
+			case strings.Contains(pn, "providers/env."):
+				seq = append(seq, ev{"env", call.Pos()})
+			case strings.Contains(pn, "providers/file."):
+				seq = append(seq, ev{"file", call.Pos()})
+			case strings.Contains(pn, "providers/posflag."):
+				seq = append(seq, ev{"flags", call.Pos()})
+			default:
+				seq = append(seq, ev{"other:" + pn, call.Pos()})
 			}
 		case strings.HasSuffix(name, "koanf/v2.Koanf).UnmarshalWithConf") || strings.HasSuffix(name, "koanf/v2.Koanf).Unmarshal"):
 			seq = append(seq, ev{"decode", call.Pos()})
